@@ -1855,6 +1855,8 @@ impl KotoVm {
                         self.set_register(result, display_context.result().into());
                         Ok(())
                     }
+                    // A timeout has to stay a timeout (and uncatchable)
+                    Err(error) if matches!(error.error, ErrorKind::Timeout(_)) => Err(error),
                     Err(_) => runtime_error!("failed to get display value"),
                 }
             }
@@ -1876,6 +1878,8 @@ impl KotoVm {
                         self.set_register(result, display_context.result().into());
                         Ok(())
                     }
+                    // A timeout has to stay a timeout (and uncatchable)
+                    Err(error) if matches!(error.error, ErrorKind::Timeout(_)) => Err(error),
                     Err(_) => runtime_error!("failed to get display value"),
                 }
             }
